@@ -15,6 +15,21 @@ root = os.path.dirname(os.path.dirname(os.path.abspath(__file__)))
 tmpl = open("/tmp/seedout/PROMPT_TEMPLATE.txt").read() if os.path.exists("/tmp/seedout/PROMPT_TEMPLATE.txt") else open(os.path.join(root, "tools/SEED_PROMPT_TEMPLATE.txt")).read()
 
 EMPH = {
+    "9": ("This is the ninth round. Prefer changes of these kinds, which earlier rounds under-used: "
+          "(a) iteration while mutating: removing from a slice or map while ranging over it, an index that is not adjusted after a deletion, swap-with-last removal that skips the "
+          "swapped-in element, a loop that stops after the first match where two ADJACENT elements qualify - visible only when two qualifying items sit next to each other; "
+          "(b) duplicates and multiplicity: the same item present twice (two routes of one face, one neighbour over two faces, the same name under two types, a repeated element in a list), "
+          "de-duplication applied on one path but not on the other, a count that is taken before vs after de-duplication; "
+          "(c) stale derived values: a cached hash / length / encoded wire / sorted order / 'best' pointer that is not invalidated after ONE particular mutation, a memoised result "
+          "re-used across a change of configuration, a snapshot taken too early; "
+          "(d) scope of state: something that must be per-face / per-thread / per-entry / per-call hoisted to a wider scope (package-level scratch buffer, shared slice re-sliced to [:0], "
+          "one timer for many entries), or the reverse (a per-instance copy of what must be shared) - visible only with two instances alive at once; "
+          "(e) compound guards: one operand of a multi-part condition changed (&& vs ||, a negation, a dropped conjunct, nil-check vs length-check) so that exactly ONE of the four "
+          "or eight combinations behaves differently, and that combination is rare; "
+          "(f) protocol constants at their exact limit: hop limit 1 and 255, cost 15/16 (infinity), the minimum MTU, maximum packet size, 252/253/65535/65536-byte lengths, sequence or version "
+          "wrap-around, the last slot of a fixed-size table, exactly-full buffers; "
+          "(g) start-up and defaults: the path the real daemon takes when it constructs the object (constructor A vs constructor B, configuration defaults, a zero value that means "
+          "'use default' on one path and 'zero' on another), first use right after creation, behaviour before the first timer tick. "),
     "8": ("This is the eighth round. Prefer changes of these kinds, which earlier rounds under-used: "
           "(a) OBSERVATION channels the property names but ordinary tests never read: reported sizes and counters, status codes and echoed parameters, dataset fields, "
           "returned booleans/errors, the token or mark carried along - the main effect stays right, what is reported or passed on is wrong in one situation; "
